@@ -205,9 +205,14 @@ def check_history(case, ctx):
         base = "history/%s" % kind.split(".")[0].split("-")[0]
         for op in hist:
             if op == "w":
+                # the producer re-uses its record object: what was handed to write() counts as of that moment, the
+                # object gets other values as soon as write() has returned
                 r = mkrec(k)
                 res = impl(w.write, r)
-                written.append(r)
+                written.append(mkrec(k))
+                for fname, fval in (("s", "reused-after-write"), ("n", -1)):
+                    if fname in r.__slots__:
+                        impl(setattr, r, fname, fval)
                 k += 1
                 flushed_last = False
             elif op == "p":
